@@ -370,6 +370,56 @@ impl Transaction {
         Ok(())
     }
 
+    /// Rejects a staged Proposition whose tuple another Proposition already is
+    /// (§12.4).
+    ///
+    /// `tuple_key` is unique-indexed, so the store would refuse the duplicate
+    /// anyway — but it would refuse it in the middle of the commit's writes,
+    /// after the rows sorted ahead of it had already been put, and there is no
+    /// log to take those back. Asking before the first write turns the same
+    /// conflict into a refusal that leaves nothing behind.
+    async fn check_proposition_tuple_identity(&self) -> Result<(), KipError> {
+        let mut claimed: BTreeSet<&str> = BTreeSet::new();
+        for (id, staged) in &self.staged {
+            let Element::Proposition(row) = &staged.row else {
+                continue;
+            };
+            // The tuple is immutable (§12.5), so only a Proposition this
+            // transaction mints can claim one.
+            if !staged.is_new || !staged.changed {
+                continue;
+            }
+            let conflict = |holder: &str| {
+                KipError::new(
+                    KipErrorCode::IdentityConflict,
+                    format!(
+                        "the tuple of {id} is already the identity of {holder}; one Space keeps \
+                         one Proposition per semantic tuple"
+                    ),
+                )
+            };
+            if !claimed.insert(row.tuple_key.as_str()) {
+                return Err(conflict("another Proposition in this transaction"));
+            }
+            if let Some(found) = self.store.find_proposition(&row.tuple_key).await?
+                && found._id != id.seq
+            {
+                return Err(conflict(
+                    &ElementId::new(ElementKind::Proposition, found._id).to_string(),
+                ));
+            }
+        }
+        Ok(())
+    }
+
+    /// Everything commit checks over the staged rows, before it writes any.
+    async fn validate_write_set(&mut self) -> Result<(), KipError> {
+        self.propagate_governance().await?;
+        self.check_reference_closure().await?;
+        self.check_concept_key_identity().await?;
+        self.check_proposition_tuple_identity().await
+    }
+
     /// Loads an existing element for modification, or returns the staged copy.
     ///
     /// Read-your-writes inside the transaction (§27): a clause that reads an
@@ -727,9 +777,15 @@ impl Transaction {
             });
         }
 
-        self.propagate_governance().await?;
-        self.check_reference_closure().await?;
-        self.check_concept_key_identity().await?;
+        // Everything that can refuse the statement is decided before the first
+        // write. There is no log to unwind, so a refusal that arrived after a
+        // row had been put would leave half a transaction committed; and a
+        // refusal here has to remove the shells exactly as a planning error
+        // does, or they stay behind as `pending` rows until the next open.
+        if let Err(err) = self.validate_write_set().await {
+            self.discard_shells().await;
+            return Err(err);
+        }
 
         // Nothing this transaction touched keeps its shell state, and the
         // version rule is applied here so that a clause touching one element
